@@ -82,7 +82,7 @@ def call_entry(c, store):
         from geff.core_io import write_arrays
 
         write_arrays(store, gg.to_np(c["nids"]), gg.props_to_np(c["nprops"]), gg.to_np(c["eids"]), gg.props_to_np(c["eprops"]),
-                     gg.make_metadata(c["md"]), zarr_format=c["fmt"], structure_validation=c["validate"], overwrite=c["overwrite"])
+                     gg.make_metadata(c["md"]), zarr_format=c["fmt"], **({} if c["validate"] else {"structure_validation": False}), **({"overwrite": True} if c["overwrite"] else {}))
     elif c["entry"] == "write_dicts":
         from geff.core_io import write_dicts
         from geff_spec import GeffMetadata
